@@ -60,7 +60,17 @@ func setDurationField(field reflect.Value, fieldType reflect.Type, isPtr bool, v
 }
 
 // deserializeParams reads row 0 from a record batch into a Go struct.
-func deserializeParams(batch arrow.RecordBatch, target reflect.Type) (reflect.Value, error) {
+func deserializeParams(batch arrow.RecordBatch, target reflect.Type) (result reflect.Value, err error) {
+	// The batch comes from the peer. Binding indexes row 0 of every column and
+	// decodes nested IPC payloads by reflection; a malformed batch (no rows,
+	// corrupt offsets, a nested payload of another shape) must surface as an
+	// error the callers turn into a TypeError, not as a panic that unwinds the
+	// serve loop or the HTTP handler.
+	defer func() {
+		if rv := recover(); rv != nil {
+			result, err = reflect.Value{}, fmt.Errorf("malformed parameter batch: %v", rv)
+		}
+	}()
 	if target.Kind() == reflect.Ptr {
 		target = target.Elem()
 	}
@@ -107,7 +117,11 @@ func deserializeParams(batch arrow.RecordBatch, target reflect.Type) (reflect.Va
 		)
 	}
 
-	result := reflect.New(target).Elem()
+	if batch.NumCols() > 0 && batch.NumRows() != 1 {
+		return reflect.Value{}, fmt.Errorf("expected 1 row in parameter batch, got %d", batch.NumRows())
+	}
+
+	result = reflect.New(target).Elem()
 
 	for ord, fd := range desc.Fields {
 		info := fd.Info
